@@ -6,11 +6,14 @@ CONSTANTS
   Prefixes = {"", "cls"}
   RuleSets <- RuleSetsQuick
   DefaultKinds = {"dyn"}
+  DetRuleSets <- RuleSetsQuick
   Encs = {"json", "msgpack"}
+  Auths = {"ok", "fail"}
   WithReload = TRUE
+  Faithful = TRUE
   UpperHexIsClassic = TRUE
 INVARIANTS TypeOK EnvKeyUsesEnvironment ClassicKeyUsesDataset DocumentedShapes NeverWithoutSampler PrefixSeparates ExtractedIsWhatDeciderReads DecisionOfOneTarget
-PROPERTY DecisionFollowsRules
+PROPERTY DecisionFollowsRulesExceptKnown
 ACTION_CONSTRAINT Dump
 VIEW View
 CHECK_DEADLOCK FALSE
